@@ -1445,3 +1445,49 @@ Proof.
   - repeat constructor.
   - constructor. reflexivity.
 Qed.
+
+(* ------------------------------------------------------------------ *)
+(* proposed repair C20-1 (cycle guard): unless it reports a cycle, the guarded loop is the loop *)
+Lemma drain_g_transparent : forall ft cwd dir w fuel lin q,
+  snd (drain_g fuel ft cwd dir w lin q) <> Some E_Cycle ->
+  drain_g fuel ft cwd dir w lin q = drain fuel ft dir w q.
+Proof.
+  intros ft cwd dir w. induction fuel as [|f IH]; intros lin q H.
+  - destruct q as [|[[bt name] par] q]; reflexivity.
+  - destruct q as [|[[bt name] par] q]; [reflexivity|].
+    cbn [drain_g drain] in *. cbv zeta in *.
+    destruct (mem_str (realpath cwd (path_join dir name))
+                      (lin_get lin (realpath cwd par) ++ [realpath cwd par])).
+    + cbn [snd] in H. now elim H.
+    + destruct (ft (path_join dir name)) as [ls|]; [|reflexivity].
+      destruct (scan_file w true bt (path_join dir name) ls) as [[ys qs] [e|]]; [reflexivity|].
+      match goal with |- context [drain_g f ft cwd dir w ?l ?qq] =>
+        specialize (IH l qq); destruct (drain_g f ft cwd dir w l qq) as [ys' e'] end.
+      cbn [snd] in *. rewrite <- IH by exact H. reflexivity.
+Qed.
+
+Lemma read_all_g_transparent : forall w fs cwd top fuel,
+  ra_error (read_all_g w fs cwd top fuel) <> Some E_Cycle ->
+  read_all_g w fs cwd top fuel = read_all w fs cwd top fuel.
+Proof.
+  intros w fs cwd top fuel H. unfold read_all_g, read_all, read_all_ft in *. cbv zeta in *.
+  destruct (fs_text fs cwd top) as [ls|]; [|reflexivity].
+  destruct (scan_file w false 0 top (f_rest (read_front_matters ls))) as [[ys qs] [e|]]; [reflexivity|].
+  match goal with |- context [drain_g fuel ?ft cwd ?d w ?l qs] =>
+    assert (T := drain_g_transparent ft cwd d w fuel l qs); destruct (drain_g fuel ft cwd d w l qs) as [ys' e'] end.
+  cbn [ra_error snd] in *. rewrite <- T by exact H. reflexivity.
+Qed.
+
+(* with the guard the cycle of cy_fs is reported after the file was read once *)
+Lemma cycle_guarded_example :
+  ra_error (read_all_g 128 cy_fs "/" "/p/top.i" 3) = Some E_Cycle /\
+  ycards (ra_yields (read_all_g 128 cy_fs "/" "/p/top.i" 3)) = [(0, ["1 0 -1"]); (1, ["1 so 5"]); (2, ["nps 10"])].
+Proof. split; vm_compute; reflexivity. Qed.
+
+(* a file read twice through two read cards, and a path with "..": no cycle, nothing reported *)
+Lemma guard_quiet_example :
+  let fs := [ ("/p/top.i", cat [L "t"; L "1 0 -1"; L ""; L "1 so 5"; L ""; L "read file=a.i"; L "read file=sub/../a.i"]);
+              ("/p/a.i", cat [L "c only a comment"]); ("/p/sub/../a.i", cat [L "c only a comment"]) ] in
+  ra_error (read_all_g 128 fs "/" "/p/top.i" 3) = None /\
+  read_all_g 128 fs "/" "/p/top.i" 3 = read_all 128 fs "/" "/p/top.i" 3.
+Proof. split; vm_compute; reflexivity. Qed.
